@@ -451,6 +451,12 @@ impl Prop for C20 {
                 scheds.push((format!("bg-contends:{}", at), s4));
             }
         }
+        // a slow background determination: a phantom entry that no thread ever reaches holds
+        // `bg:determined` back until the sequencer gives up on it (after the timeout, here
+        // 1.5 s), while the first query waits - a query that stops waiting early would hand out
+        // the unfinished answer
+        let slow = !known && t.chance(1, if ctx.tier == Tier::Quick { 6 } else { 2 });
+        let slow_sched: Vec<String> = vec!["query#1".to_string(), BG[0].to_string(), "phantom:never".to_string(), BG[1].to_string()];
         // quick tier: a generated subset of the positions (all of them in the thorough tier)
         if ctx.tier == Tier::Quick && scheds.len() > 24 {
             let mut keep: Vec<(String, Vec<String>)> = Vec::new();
@@ -462,6 +468,9 @@ impl Prop for C20 {
         }
         scheds.sort();
         scheds.dedup();
+        if slow {
+            scheds.push(("slow-background".to_string(), slow_sched));
+        }
         let mut interesting = 0u64;
         for (kind, sched) in &scheds {
             let sched = sched.clone();
@@ -483,7 +492,7 @@ impl Prop for C20 {
             // realised? the scheduled points that were passed must have been passed in order
             let listed: Vec<&String> = sched.iter().filter(|p| !p.starts_with('@')).collect();
             let passed: Vec<&String> = o.trace.iter().filter(|l| listed.contains(l)).collect();
-            let realised = !o.trace.iter().any(|l| l.starts_with("TIMEOUT")) && passed.iter().zip(listed.iter()).all(|(a, b)| a == b) && listed.iter().filter(|p| p.starts_with("query#") || p.starts_with("set:")).all(|p| passed.contains(p));
+            let realised = !o.trace.iter().any(|l| l.starts_with("TIMEOUT") && (kind != "slow-background" || l != "TIMEOUT bg:determined")) && passed.iter().zip(listed.iter()).all(|(a, b)| a == b) && listed.iter().filter(|p| p.starts_with("query#") || p.starts_with("set:")).all(|p| passed.contains(p));
             if o.stdout != reference.stdout {
                 let what = if known { "the launched command was not what every query saw" } else { "a query saw an unfinished or different answer" };
                 return fail(
